@@ -511,8 +511,8 @@ func init() {
 		Level: "exploration",
 		Rule: "report-class profiles (recursion, inlined multi-line locations shared between samples, empty stacks, unsymbolized and unmapped frames, negative values, 1-3 count-typed sample types, string and unitless numeric labels) x 3 random points of {granularity 5} x noinlines x showcolumns x sample_index x mean x tagroot/tagleaf; every point rendered through the real driver as -top, -tree, -peek=., -dot, -traces, -topproto and -dot -call_tree (trim=false), and for every fourth profile also through the web UI's /top view and parsed independently; " +
 			"oracle: reference report over the frames view (flat = leaf sum, cum = once per sample, edge = adjacency once per sample, total = sum |v|, mean quotients), compared as multisets of (name, flat, cum) and (caller, callee, weight); legend 'accounting for' = sum of flat shown. non-trivial = at least 2 samples; distinct = profile shape signature",
-		Assumptions: []string{"count-typed values so printed numbers are exact integers", "entries are matched by printable name (names with leading/trailing/double blanks or newlines are left to C18)", "a single source is not merged by pprof, so -traces is compared sample by sample"},
-		Parts:       []harness.Part{{Name: "formats", Quick: 4000, Thor: 150000, Run: run}},
+		Assumptions:   []string{"count-typed values so printed numbers are exact integers", "entries are matched by printable name (names with leading/trailing/double blanks or newlines are left to C18)", "a single source is not merged by pprof, so -traces is compared sample by sample"},
+		Parts:         []harness.Part{{Name: "formats", Quick: 4000, Thor: 150000, Run: run}},
 		MinNonTrivial: func(string) int { return 200 },
 	})
 }
